@@ -124,6 +124,23 @@ def check_sibling_agreement(ctx, r):
                 if not any(fd.function == h.qualname for fd in ctx.findings):
                     raise AnalysisError(f"C16.2: memo key `{k.id}` in {q} comes from helper `{h.name}`, whose form was not recognised")
                 continue
+            if not defs and len(all_defs) == 1 and isinstance(all_defs[0][1], ast.IfExp) and _is_treepath_test(all_defs[0][1].test) is not None:
+                # `key = get_treepath_memo() + d.name if d.treepath else d.name`
+                ie = all_defs[0][1]
+                dimtxt, pol = _is_treepath_test(ie.test)
+                tside, fside = (ie.body, ie.orelse) if pol else (ie.orelse, ie.body)
+                okt = (isinstance(tside, ast.BinOp) and isinstance(tside.op, ast.Add) and isinstance(tside.left, ast.Call)
+                       and r.role_of_call(f, tside.left) == "get_treepath_memo"
+                       and isinstance(tside.right, ast.Attribute) and tside.right.attr == "name" and norm(tside.right.value) == dimtxt)
+                okf = isinstance(fside, ast.Attribute) and fside.attr == "name" and norm(fside.value) == dimtxt
+                if not okt:
+                    ctx.bad("C16.2", f, all_defs[0][0], f"on the treepath side the memo key for `{dimtxt}` is `{norm(tside)}`, not "
+                            "get_treepath_memo() + <dim>.name: the '?' axis is not keyed by leaf position")
+                elif not okf:
+                    ctx.bad("C16.2", f, all_defs[0][0], f"on the non-treepath side the memo key for `{dimtxt}` is `{norm(fside)}`, not the plain <dim>.name")
+                else:
+                    ctx.ok("C16.2", q, f"key `{k.id}` for `{dimtxt}`: treepath -> get_treepath_memo() + name, else plain name (conditional expression)")
+                continue
             if not defs:
                 if all(isinstance(v, ast.Attribute) and v.attr == "name" for _, v, _ in all_defs):
                     ctx.bad("C16.2", f, all_defs[0][0], f"memo key `{k.id}` is the bare dim name: the dim's `.treepath` is ignored, so a "
